@@ -11,6 +11,12 @@ namespace Quote
     the running Python into `Params.shlexSafe` -/
 def safeByte (c : Byte) : Bool := Params.shlexSafe.contains c.toNat
 
+/-- bytes that a POSIX shell reads literally when unquoted, wherever they stand in a word:
+    ASCII letters, digits and `% + , - . / : = @ _` (hand-written, independent of the table) -/
+def posixPlain (n : Nat) : Bool :=
+  (48 ≤ n && n ≤ 57) || (65 ≤ n && n ≤ 90) || (97 ≤ n && n ≤ 122) ||
+  n == 37 || n == 43 || n == 44 || n == 45 || n == 46 || n == 47 || n == 58 || n == 61 || n == 64 || n == 95
+
 def SQ : Byte := 39   -- '
 def DQ : Byte := 34   -- "
 def SP : Byte := 32
